@@ -17,10 +17,12 @@ package main
 //     Logger.check), through Info / Sugar / Check+Write / a With child / WithOptions, JSON and
 //     console, AddCaller and / or AddStacktrace, optionally followed by ONE runtime.GC() (the pooled
 //     objects then sit in sync.Pool's victim cache and are still handed out);
-//   - a probe (CONCURRENT BURST): eight workers, each with a logger, sinks and a call-site function
+//   - a probe (CONCURRENT BURST): twelve workers (A-H with zap's built-in metadata callbacks; I-L, added for seed
+//     c08j, with callbacks that record nested arrays / objects in the console encoder's pooled column collector,
+//     c08_nested.go), each with a logger, sinks and a call-site function
 //     of its own (JSON / console, AddCaller, AddStacktrace, both, sugar, zap.Stack, a With + Named
 //     child, Check + Write over a tee, a deeper stack), all logging the SAME entry.  Each worker first
-//     makes its call ALONE (one after the other, each on a goroutine of its own): these eight
+//     makes its call ALONE (one after the other, each on a goroutine of its own): these twelve
 //     reference lines are the probe's bytes.  Then 2..8 of the workers make the same call a few
 //     hundred to a few thousand times CONCURRENTLY; every line must equal the line the same call
 //     produced alone, nothing may reach an error output, no call may panic (recovered and recorded).
@@ -255,9 +257,32 @@ func c08SiteG(w *c08Worker) {
 //go:noinline
 func c08SiteH(w *c08Worker) { c08Deep(12, func() { w.lg.Error("same entry", c08BurstFields...) }) }
 
+//go:noinline
+func c08SiteI(w *c08Worker) { w.lg.Info("same entry", c08BurstFields...) }
+
+//go:noinline
+func c08SiteJ(w *c08Worker) { w.lg.Warn("same entry", c08BurstFields...) }
+
+//go:noinline
+func c08SiteK(w *c08Worker) { w.lg.Error("same entry", c08BurstFields...) }
+
+//go:noinline
+func c08SiteL(w *c08Worker) {
+	w.lg.Info("same entry", zap.Int("n", 42), zap.String("k", "v"), zap.Duration("d", 1500*time.Millisecond))
+}
+
+// eight workers with zap's built-in metadata callbacks, four whose callbacks record nested arrays / objects
+// in the console encoder's pooled column collector (c08_nested.go)
+const c08NWorkers = 12
+
 func c08NewWorkers(sc *c08Scope, act int) []*c08Worker {
+	var cfg func() zapcore.EncoderConfig
 	mk := func(name string, site func(*c08Worker), console, tee bool, derive func(*zap.Logger) *zap.Logger, opts ...zap.Option) *c08Worker {
 		w := &c08Worker{name: name, site: site}
+		c08Cfg := c08Cfg
+		if cfg != nil {
+			c08Cfg = cfg
+		}
 		sink := func(quiet bool) *c08LineSink {
 			s := &c08LineSink{sc: sc, act: act, quiet: quiet}
 			w.sinks = append(w.sinks, s)
@@ -276,7 +301,7 @@ func c08NewWorkers(sc *c08Scope, act int) []*c08Worker {
 		return w
 	}
 	all := zap.AddStacktrace(zapcore.DebugLevel)
-	return []*c08Worker{
+	ws := []*c08Worker{
 		mk("A json caller", c08SiteA, false, false, nil, zap.AddCaller()),
 		mk("B console caller+stack", c08SiteB, true, false, nil, zap.AddCaller(), all),
 		mk("C json stack", c08SiteC, false, false, nil, all),
@@ -288,6 +313,19 @@ func c08NewWorkers(sc *c08Scope, act int) []*c08Worker {
 		mk("G tee check-write caller+stack", c08SiteG, false, true, nil, zap.AddCaller(), zap.AddStacktrace(zapcore.InfoLevel)),
 		mk("H json deep caller+stack", c08SiteH, false, false, nil, zap.AddCaller(), zap.AddStacktrace(zapcore.WarnLevel)),
 	}
+	nested := func(mask int) { cfg = func() zapcore.EncoderConfig { return c08NestCfg(mask, 0, false) } }
+	nested(c08NCaller) // ONE nested array per entry: nothing inside a single call takes the collector's pool twice
+	ws = append(ws, mk("I console nested-caller", c08SiteI, true, false, nil, zap.AddCaller()))
+	nested(c08NTime | c08NLevel)
+	ws = append(ws, mk("J console nested-time+level caller", c08SiteJ, true, false, nil, zap.AddCaller()))
+	nested(c08NName | c08NDeep)
+	ws = append(ws, mk("K console nested-name-object+deep-caller named-child stack", c08SiteK, true, false, func(l *zap.Logger) *zap.Logger {
+		return l.Named("burst").With(zap.Int("ctx", 1))
+	}, zap.AddCaller(), zap.AddStacktrace(zapcore.ErrorLevel)))
+	nested(c08NMasks - 1)
+	ws = append(ws, mk("L tee json+console nested-everything", c08SiteL, false, true, nil, zap.AddCaller()))
+	cfg = nil
+	return ws
 }
 
 // one call; a panic is recovered and recorded
@@ -398,8 +436,14 @@ func c08BurstRun(sc *c08Scope, act int) []byte {
 	var wg sync.WaitGroup
 	start := make(chan struct{})
 	var used []*c08Worker
+	pick := make([]*c08Worker, 0, cfg.g+2)
 	for i := 0; i < cfg.g && i < len(ws); i++ {
-		w := ws[(cfg.first+i)%len(ws)]
+		pick = append(pick, ws[(cfg.first+i)%len(ws)])
+	}
+	if c08BurstPlan == nil {
+		pick = append(pick, ws[8], ws[9]) // the small default burst: A, B, C and two of the nested configurations
+	}
+	for i, w := range pick {
 		used = append(used, w)
 		wg.Add(1)
 		y := cfg.yield
@@ -486,7 +530,7 @@ func c08EdgeStage(seed uint64, thorough bool, r *RNG, probes []*c08Probe, viol f
 			yield = 64
 			n /= 2
 		}
-		c08BurstPlan = &c08BurstCfg{g: 2 + (i+int(seed))%7, n: n, yield: yield, first: (i * 3) % 8}
+		c08BurstPlan = &c08BurstCfg{g: 2 + (i+int(seed))%7, n: n, yield: yield, first: (i * 5) % c08NWorkers}
 		observe(bp, hist, cls, class+"-p"+strconv.Itoa(procs), 0)
 		c08BurstPlan = nil
 	}
